@@ -118,3 +118,45 @@ Definition check_case (contained : bool) (k : lcase) : list (nat * nat) :=
 
 Definition mismatches (contained : bool) (ks : list lcase) : list (nat * nat) :=
   flat_map (check_case contained) ks.
+
+(* ---------- several rules of one call, executed in sort-model order (C15) ---------- *)
+Record mcase := mkMC2 {
+  mc_id    : nat;
+  mc_rules : list (rule_meta * block);          (* in execution order (salience descending) *)
+  mc_inj   : list (string * phobj);
+  mc_class : oclass;
+  mc_rets  : list (string * option pvalue);     (* result map: name -> value (None = nil) *)
+  mc_cites : list pos;
+  mc_calls : list (string * list pvalue);
+  mc_store : list (string * phobj)
+}.
+
+Fixpoint run_rules_model (rs : list (rule_meta * block)) (inj : list (string * phobj)) (tr : list (string * list pvalue))
+  : list (string * rule_result primfo) * env primfo :=
+  match rs with
+  | [] => ([], mkEnv inj [] tr)
+  | (m, b) :: rest =>
+    let '(r, e) := exec_rule primfo m prim_of_me true b inj tr in
+    let '(rs', e') := run_rules_model rest (e_inj e) (e_trace e) in
+    ((m_name m, r) :: rs', e')
+  end.
+
+Definition check_mcase (k : mcase) : list (nat * nat) :=
+  let '(rs, e) := run_rules_model (mc_rules k) (mc_inj k) [] in
+  let failed := existsb (fun nr => match snd nr with RRError _ _ | RRPanic _ => true | _ => false end) rs in
+  let rets := flat_map (fun nr => match snd nr with RRReturn _ v => [(fst nr, v)] | _ => [] end) rs in
+  let cites := flat_map (fun nr => match snd nr with RRError _ c => c | _ => [] end) rs in
+  map (fun c => (mc_id k, c))
+    (flag (oclass_eqb (if failed then OError else OOk) (mc_class k)) 1 ++
+     flag (Nat.eqb (length rets) (length (mc_rets k)) &&
+           forallb (fun nv => match alookup (fst nv) (mc_rets k) with
+                              | Some ov => match snd nv, ov with
+                                           | None, None => true
+                                           | Some a, Some b => same_value a b
+                                           | _, _ => false end
+                              | None => false end) rets) 2 ++
+     flag (list_eqb pos_eqb cites (mc_cites k)) 3 ++
+     flag (list_eqb (fun a b => String.eqb (fst a) (fst b) && list_eqb same_value (snd a) (snd b)) (e_trace e) (mc_calls k)) 4 ++
+     flag (forallb (fun nb => match alookup (fst nb) (e_inj e) with Some o => hobj_eqb o (snd nb) | None => false end) (mc_store k)) 5).
+
+Definition mmismatches (ks : list mcase) : list (nat * nat) := flat_map check_mcase ks.
